@@ -186,6 +186,10 @@ def main():
     a3.add_argument("--only", default=None)
     a3.add_argument("--jobs", type=int, default=3)
     a3.add_argument("--all-checks", action="store_true")
+    a4 = sp.add_parser("benign")
+    a4.add_argument("--tier", default="quick")
+    a4.add_argument("--only", default=None)
+    a4.add_argument("--jobs", type=int, default=2)
     a = ap.parse_args()
     if a.cmd == "verify":
         r = verify(a.dir)
@@ -217,7 +221,47 @@ def main():
                 sys.stdout.flush()
                 rows.append({"id": i, "property": meta["property"], "caught_by": caught, "infra": infra,
                              "walls": {c: x["wall"] for c, x in r.items()}})
-        with open(os.path.join(SEEDED, "matrix-%s.json" % a.tier), "w") as f:
+        mf = os.path.join(SEEDED, "matrix-%s.json" % a.tier)
+        merged = {}
+        if os.path.exists(mf):
+            with open(mf) as f:
+                merged = {r["id"]: r for r in json.load(f)}
+        for r in rows:
+            merged[r["id"]] = r
+        with open(mf, "w") as f:
+            json.dump([merged[k] for k in sorted(merged)], f, indent=1)
+        return 0
+    if a.cmd == "benign":
+        # behaviour-preserving changes: every check must stay silent (exit 0) on each of them
+        BEN = os.path.join(VERIF, "benign")
+        ids = sorted(x for x in os.listdir(BEN) if os.path.exists(os.path.join(BEN, x, "patch.diff")))
+        if a.only:
+            ids = [i for i in ids if i in a.only.split(",")]
+
+        def one(i):
+            d = os.path.join(BEN, i)
+            res = {}
+            with Worktree(os.path.join(d, "patch.diff")) as w:
+                rc, out = sh(["go", "build", "./..."], cwd=w.dir)
+                res["build"] = rc
+                cmd = "go test -vet=off -count=1 ./..."
+                if NETNS:
+                    cmd = "unshare -rn sh -c 'ip link set lo up && %s'" % cmd
+                rc, out = sh(cmd, cwd=w.dir, timeout=1800)
+                res["suite"] = rc
+            res["checks"] = run_checks(d, ALL, a.tier, keep=os.path.join("/tmp", "benign-out-" + i))
+            return i, res
+        rows = []
+        with ThreadPoolExecutor(max_workers=a.jobs) as ex:
+            for i, r in ex.map(one, ids):
+                alarms = sorted(c for c, x in r["checks"].items() if x["rc"] == 1)
+                infra = sorted(c for c, x in r["checks"].items() if x["rc"] not in (0, 1))
+                print("%-8s build=%d suite=%d alarms=%s infra=%s" % (i, r["build"], r["suite"], ",".join(alarms) or "-", ",".join(infra) or "-"))
+                for c in alarms:
+                    print("    ", c, r["checks"][c]["violations"][:4])
+                sys.stdout.flush()
+                rows.append({"id": i, "build": r["build"], "suite": r["suite"], "alarms": alarms, "infra": infra})
+        with open(os.path.join(BEN, "result-%s.json" % a.tier), "w") as f:
             json.dump(rows, f, indent=1)
         return 0
     ap.print_help()
